@@ -345,7 +345,28 @@ pub fn extra_universe() -> Universe {
     ));
     let mac_z = add(def("MacZ", Zero, &["C"], vec![tparam("A", &[ZC])], Body::Struct(named(&[("x", Ty::Param(0)), ("y", p(U16))]))));
 
+    // an enum with more variants than a byte can index, and deep-copy enums with a primitive representation
+    let wide_vars: Vec<(String, Fields)> = (0..300)
+        .map(|i| {
+            let f = match i % 4 {
+                0 => Fields::Unit,
+                1 => Fields::Tuple(vec![p(U32)]),
+                2 => named(&[("x", p(U8)), ("s", Ty::String)]),
+                _ => Fields::Tuple(vec![Ty::vec(p(U16)), p(U64)]),
+            };
+            (format!("V{}", i), f)
+        })
+        .collect();
+    let wide_e = add(def("Wide300", DeepPlain, &[], vec![], Body::Enum(wide_vars)));
+    let rep8 = add(def("RepU8", DeepPlain, &["u8"], vec![tparam("A", &[])], Body::Enum(vec![("A".into(), Fields::Tuple(vec![Ty::Param(0)])), ("B".into(), Fields::Unit), ("C".into(), named(&[("n", p(U64)), ("s", Ty::String)]))])));
+    let rep16 = add(def("RepU16", DeepAttr, &["u16"], vec![], Body::Enum(vec![("Lo".into(), Fields::Unit), ("Hi".into(), Fields::Tuple(vec![Ty::vec(p(U32))])), ("Mid".into(), Fields::Tuple(vec![p(U8), p(U8)]))])));
+    let rep32 = add(def("RepCU32", DeepPlain, &["C, u32"], vec![], Body::Enum(vec![("X".into(), Fields::Tuple(vec![p(U16)])), ("Y".into(), named(&[("v", Ty::String)])), ("Z".into(), Fields::Unit)])));
+
     let mut s: Vec<Ty> = vec![];
+    s.extend([Ty::adt(wide_e, vec![]), Ty::vec(Ty::adt(wide_e, vec![])), Ty::opt(Ty::adt(wide_e, vec![]))]);
+    s.extend([Ty::adt(rep8, vec![a(Ty::vec(p(U64)))]), Ty::adt(rep8, vec![a(p(U8))]), Ty::vec(Ty::adt(rep8, vec![a(Ty::String)])), Ty::adt(rep16, vec![]), Ty::vec(Ty::adt(rep16, vec![])), Ty::adt(rep32, vec![]), Ty::adt(g1, vec![a(Ty::adt(rep32, vec![]))])]);
+    // items of more than 4 KiB in sequences
+    s.extend([Ty::vec(Ty::arr(p(U64), 513)), Ty::bslice(Ty::arr(p(U8), 4097))]);
     for (x, y) in [(Ty::vec(p(U64)), p(U8)), (Ty::String, p(U32)), (Ty::bslice(Ty::adt(za, vec![])), Ty::adt(za, vec![])), (Ty::vec(Ty::String), Ty::tup(p(U16), 2))] {
         s.push(Ty::adt(mac_s, vec![a(x.clone()), a(y.clone())]));
         s.push(Ty::adt(mac_t, vec![a(x.clone())]));
@@ -482,6 +503,38 @@ pub fn zst_universe() -> Universe {
     u
 }
 
+
+/// Zero-copy types whose alignment unit exceeds the 64 bytes the loaders support (label "wide"): used by the
+/// in-memory properties only.
+pub fn wide_universe() -> Universe {
+    use CopyKind::*;
+    use Prim::*;
+    let mut u = Universe { label: "wide".into(), adts: vec![], subjects: vec![], pairs: vec![] };
+    let mut add = |d: AdtDef| -> usize {
+        u.adts.push(d);
+        u.adts.len() - 1
+    };
+    let z128 = add(def("ZA128", Zero, &["C", "align(128)"], vec![], Body::Struct(named(&[("x", p(U8)), ("y", p(U32))]))));
+    let z256 = add(def("ZA256", Zero, &["C", "align(256)"], vec![], Body::Struct(named(&[("x", p(U16))]))));
+    let pre = add(def("Pre", DeepPlain, &[], vec![tparam("A", &[]), tparam("B", &[])], Body::Struct(named(&[("a", Ty::Param(0)), ("b", Ty::Param(1))]))));
+    let tail = add(def("Tail", DeepPlain, &[], vec![tparam("A", &[])], Body::Struct(named(&[("a", Ty::Param(0)), ("t1", p(U8)), ("t2", p(U64)), ("t3", Ty::String)]))));
+    let mut s = vec![];
+    for z in [z128, z256] {
+        let t = Ty::adt(z, vec![]);
+        s.push(t.clone());
+        s.push(Ty::vec(t.clone()));
+        s.push(Ty::bslice(t.clone()));
+        s.push(Ty::arr(t.clone(), 2));
+        s.push(Ty::adt(pre, vec![a(Ty::String), a(Ty::vec(t.clone()))]));
+        s.push(Ty::adt(pre, vec![a(Ty::String), a(t.clone())]));
+        s.push(Ty::adt(tail, vec![a(Ty::vec(t.clone()))]));
+        s.push(Ty::adt(tail, vec![a(t.clone())]));
+        s.push(Ty::opt(Ty::vec(t)));
+    }
+    s.push(Ty::adt(pre, vec![a(Ty::vec(Ty::adt(z128, vec![]))), a(Ty::vec(Ty::adt(z256, vec![])))]));
+    u.subjects = s;
+    u
+}
 
 /// Ranges over an index type whose size is not a power of two (label "odd"): the alignment unit the crate
 /// assigns to them is `size_of::<Self>()`, e.g. 3 for `RangeTo<[u8; 3]>` (O14). Only C07 uses this universe.
